@@ -1778,7 +1778,11 @@ impl<'de, R: Read<'de>> de::SeqAccess<'de> for DescribedAccess<'_, R> {
                 // list headers
                 if self.counter == 0 {
                     if let StructEncoding::DescribedList = self.de.struct_encoding {
-                        self.field_count += self.consume_list_header()?;
+                        let count = self.consume_list_header()?;
+                        self.field_count = self
+                            .field_count
+                            .checked_add(count)
+                            .ok_or(Error::InvalidLength)?;
                     }
                 }
                 result
@@ -1818,7 +1822,11 @@ impl<'de, R: Read<'de>> de::MapAccess<'de> for DescribedAccess<'_, R> {
                 let result = seed.deserialize(self.as_mut()).map(Some);
                 if self.counter == 0 {
                     if let StructEncoding::DescribedMap = self.de.struct_encoding {
-                        self.field_count += self.consume_map_header()?;
+                        let count = self.consume_map_header()?;
+                        self.field_count = self
+                            .field_count
+                            .checked_add(count)
+                            .ok_or(Error::InvalidLength)?;
                     }
                 }
                 result
